@@ -129,3 +129,35 @@ func Selftest(keys []*rsa.PrivateKey) error {
 	}
 	return nil
 }
+
+// Encode builds an EMSA-PSS encoded message for mHash with the given salt. junk != 0
+// replaces the last padding octet in front of the 0x01 delimiter (an encoding that
+// EMSA-PSS-VERIFY step 10 must refuse); junk == 0 gives the regular encoding.
+// Returns nil if the encoding does not fit.
+func Encode(h crypto.Hash, mHash, salt []byte, emBits int, junk byte) []byte {
+	hLen := h.Size()
+	emLen := (emBits + 7) / 8
+	ps := emLen - hLen - len(salt) - 2
+	if ps < 0 || (junk != 0 && ps < 2) {
+		return nil
+	}
+	x := h.New()
+	x.Write(make([]byte, 8))
+	x.Write(mHash)
+	x.Write(salt)
+	H := x.Sum(nil)
+	db := make([]byte, emLen-hLen-1)
+	if junk != 0 {
+		db[ps-1] = junk
+	}
+	db[ps] = 0x01
+	copy(db[ps+1:], salt)
+	mask := mgf1(h.New, H, len(db))
+	for i := range db {
+		db[i] ^= mask[i]
+	}
+	if topBits := 8*emLen - emBits; topBits > 0 {
+		db[0] &= 0xff >> topBits
+	}
+	return append(append(db, H...), 0xbc)
+}
